@@ -194,6 +194,41 @@ pub fn apply_op(buf: &mut [u8], op: &Op) -> Res<(usize, usize)> {
     let base = buf.as_ptr() as usize;
     catch(|| -> Result<(usize, usize), ProgramError> {
         let mut st = TlvStateMut::unpack(buf)?;
+        apply_on(&mut st, base, op)
+    })
+}
+/// several operations on ONE `TlvStateMut` object (anything the object remembered between calls
+/// would show), then every entry looked up through that same object, shared and mutable
+pub fn apply_ops_one_state(buf: &mut [u8], ops: &[Op], lookups: &[(usize, usize)]) -> (Vec<Res<(usize, usize)>>, Vec<(Res<(usize, Vec<u8>)>, Res<(usize, Vec<u8>)>)>) {
+    let base = buf.as_ptr() as usize;
+    let mut results = Vec::new();
+    let mut looked = Vec::new();
+    let mut st = match catch(|| TlvStateMut::unpack(buf)) {
+        Res::Ok(st) => st,
+        Res::Err(e) => { results.push(Res::Err(e)); return (results, looked); }
+        Res::Panic(e) => { results.push(Res::Panic(e)); return (results, looked); }
+    };
+    for op in ops {
+        let r = catch(|| apply_on(&mut st, base, op));
+        let stop = r.is_panic();
+        results.push(r);
+        if stop {
+            return (results, looked);
+        }
+    }
+    for (t, r) in lookups {
+        let shared = catch(|| -> Result<(usize, Vec<u8>), ProgramError> {
+            with_tag!(*t, T, P, B, H, { let s = st.get_bytes_with_repetition::<T>(*r)?; Ok((s.as_ptr() as usize - base, s.to_vec())) })
+        });
+        let mutable = catch(|| -> Result<(usize, Vec<u8>), ProgramError> {
+            with_tag!(*t, T, P, B, H, { let s = st.get_bytes_with_repetition_mut::<T>(*r)?; Ok((s.as_ptr() as usize - base, s.to_vec())) })
+        });
+        looked.push((shared, mutable));
+    }
+    (results, looked)
+}
+fn apply_on(st: &mut TlvStateMut, base: usize, op: &Op) -> Result<(usize, usize), ProgramError> {
+    {
         match op {
             Op::Alloc { t, len, allow } => with_tag!(*t, T, P, B, H, {
                 let (s, r) = st.alloc::<T>(*len, *allow)?;
@@ -247,7 +282,7 @@ pub fn apply_op(buf: &mut [u8], op: &Op) -> Res<(usize, usize)> {
                 Ok((s.as_ptr() as usize - base, r))
             }),
         }
-    })
+    }
 }
 
 #[derive(Clone, Copy, PartialEq, Debug)]
@@ -1187,6 +1222,100 @@ pub fn dirty_tail_scenario(rep: &mut Report, prop: &str, rng: &mut Rng, to_coq: 
     }
 }
 
+/// 2-5 operations on one `TlvStateMut` object, then every entry read back through that same object.
+/// `hole`: the slab starts with an entry whose type tag alone was zeroed (everything from there on is
+/// a tail behind a terminator); an allocation of exactly that size re-creates the header, after which
+/// the entries behind it are part of the run again.
+pub fn same_object_scenario(rep: &mut Report, prop: &str, rng: &mut Rng, hole: bool, to_coq: bool) {
+    let ne = if hole { rng.range(2, 5) } else { rng.below(4) } as usize;
+    let es: Vec<(usize, Vec<u8>)> = (0..ne).map(|_| { let l = rng.below(10) as usize; (rng.below(NTAGS as u64) as usize, rng.bytes(l)) }).collect();
+    let used: usize = es.iter().map(|(_, v)| 12 + v.len()).sum();
+    let mut o = Oracle { n: used + rng.below(60) as usize, es };
+    let mut buf = o.render();
+    let mut ops: Vec<Op> = Vec::new();
+    let mut expects: Vec<Option<(usize, usize)>> = Vec::new();
+    if hole {
+        let i = rng.below(ne as u64 - 1) as usize; // not the last one: something sits behind the hole
+        let off = o.offset_of(i) - 12;
+        for x in buf[off..off + 8].iter_mut() {
+            *x = 0;
+        }
+        let (t, l) = (o.es[i].0, o.es[i].1.len());
+        let r = o.es[..i].iter().filter(|(k, _)| *k == t).count();
+        ops.push(Op::Alloc { t, len: l, allow: true });
+        expects.push(Some((off + 12, r)));
+    }
+    let init = buf.clone();
+    let nops = rng.range(if hole { 1 } else { 2 }, 5) as usize;
+    for _ in 0..nops {
+        let op = gen_op(rng, &o, prop == "C04");
+        let mut o2 = o.clone();
+        let e = o2.apply(&op);
+        if e.is_some() {
+            o = o2;
+        } else if let Op::PackVar { .. } = op {
+            continue; // a failed pack may scribble inside its slot: keep this scenario simple
+        }
+        ops.push(op);
+        expects.push(e);
+    }
+    let lookups: Vec<(usize, usize)> = o.es.iter().enumerate().map(|(i, (t, _))| (*t, o.es[..i].iter().filter(|(k, _)| k == t).count())).collect();
+    let (results, looked) = apply_ops_one_state(&mut buf, &ops, &lookups);
+    rep.count(if hole { "same-object:refilled-hole" } else { "same-object:ops" });
+    rep.monitor_runs += 1;
+    let det = |what: &str| serde_json::json!({"what": what, "initial_slab": emit::hex(&init), "ops_on_one_state_object": ops.iter().map(|x| format!("{:?}", x)).collect::<Vec<_>>(),
+        "results": results.iter().map(|x| format!("{:?}", x)).collect::<Vec<_>>(), "expected": expects.iter().map(|x| format!("{:?}", x)).collect::<Vec<_>>(), "final_slab": emit::hex(&buf)}).to_string();
+    if results.iter().any(|r| r.is_panic()) {
+        rep.violate("same-object-panic", "a TLV operation panicked (several operations on one state object)", det("panic"));
+        return;
+    }
+    let res_ok = results.len() == expects.len() && results.iter().zip(expects.iter()).all(|(r, e)| match (r, e) { (Res::Ok(g), Some(x)) => g == x, (Res::Err(_), None) => true, _ => false });
+    if !res_ok {
+        rep.violate("same-object-result", "results of operations run on one state object differ from the entry-list semantics", det("results"));
+        return;
+    }
+    // entries as the oracle has them (after a refilled hole the value is whatever was there: the oracle kept it)
+    let mut off = 0usize;
+    let mut bytes_ok = true;
+    for (k, v) in &o.es {
+        if buf.len() < off + 12 + v.len() || buf[off..off + 8] != TAGS[*k] || buf[off + 8..off + 12] != (v.len() as u32).to_le_bytes() || buf[off + 12..off + 12 + v.len()] != v[..] {
+            bytes_ok = false;
+            break;
+        }
+        off += 12 + v.len();
+    }
+    if !bytes_ok {
+        rep.violate("same-object-bytes", "after operations run on one state object the slab does not hold the expected entries", det("bytes"));
+        return;
+    }
+    for (i, ((t, r), (sh, mu))) in lookups.iter().zip(looked.iter()).enumerate() {
+        let want = Res::Ok((o.offset_of(i), o.es[i].1.clone()));
+        if *sh != want || *mu != want {
+            rep.violate("same-object-lookup", "an entry looked up through the state object that performed the operations is not the entry the slab holds",
+                serde_json::json!({"tag": t, "rep": r, "shared": format!("{:?}", sh), "mutable": format!("{:?}", mu), "context": det("lookup")}).to_string());
+            return;
+        }
+    }
+    if to_coq {
+        // the model has no object state: the same operations one after the other
+        let mut items = Vec::new();
+        let mut b2 = init.clone();
+        let mut o_c = Oracle { n: o.n, es: vec![] };
+        let _ = &mut o_c;
+        for (op, r) in ops.iter().zip(results.iter()) {
+            let cur = match op { Op::Write { t, rep: rr, .. } => { let mut c = b2.clone(); get_bytes_view(&mut c, *t, *rr, View::Borrowed).map(|(_, v)| v.len()) } _ => Res::Ok(0) };
+            let cur_len = match cur { Res::Ok(l) => l, _ => 0 };
+            let _ = apply_op(&mut b2, op);
+            items.push(format!("IOp ({}) {} {}", emit_op(op, cur_len), r.emit(|(a, b)| format!("({}, {})", a, b)), cksum(&b2)));
+        }
+        if b2 == buf {
+            rep.case(format!("CHist {} [\n  {}\n ] {}", emit::blob(&init), items.join(";\n  "), emit::blob(&buf)), true);
+        } else {
+            rep.violate("same-object-vs-fresh", "the same operations give different bytes on one state object and on a fresh object per operation", det("fresh objects differ"));
+        }
+    }
+}
+
 pub fn run(ctx: &Ctx, prop: &str) -> Report {
     let mut rep = Report::new(prop);
     rep.corr_module = "Tlv".into();
@@ -1246,6 +1375,9 @@ pub fn run(ctx: &Ctx, prop: &str) -> Report {
         rep.count("history:thousands-of-entries");
     }
     override_slice_scenario(&mut rep);
+    for k in 0..ctx.scale(1500, 15000) {
+        same_object_scenario(&mut rep, prop, &mut rng, k % 3 == 0, k < ctx.scale(100, 1000));
+    }
     for k in 0..ctx.scale(400, 4000) {
         dirty_tail_scenario(&mut rep, prop, &mut rng, k < ctx.scale(120, 1200));
     }
